@@ -325,6 +325,25 @@ func c10() []*Ob {
 				if fn := c.Fn("proxy/bulk.extractDocTime"); fn != nil {
 					checkTimeSearch(c, fn)
 				}
+				// the drift is measured against the receive time of the request, not against the clock at processing time
+				if fn := c.Fn("(*proxy/bulk.processor).Process"); fn != nil {
+					for _, call := range CallsIn(fn, Callee("proxy/bulk.documentDelayed")) {
+						delay := Arg(call, 0)
+						fromReq := DerivesFrom(delay, func(v ssa.Value) bool {
+							p, ok := v.(*ssa.Parameter)
+							return ok && ParamName(p) == "requestTime"
+						})
+						fromClock := DerivesFrom(delay, func(v ssa.Value) bool {
+							cl, ok := v.(ssa.CallInstruction)
+							return ok && (CallName(cl) == "time.Now" || CallName(cl) == "time.Since" || CallName(cl) == "time.Until")
+						})
+						if fromReq && !fromClock {
+							c.Site(call.Pos(), "the delay given to documentDelayed is measured from the request's receive time")
+						} else {
+							c.Violation("prov:Process:delay-from-receive-time", call.Pos(), "the delay given to documentDelayed is not (only) the distance between the document time and the request's receive time: measured against the clock at processing time, a document inside the allowed drift is re-stamped when the body arrives slowly, and one too far in the future keeps its time")
+						}
+					}
+				}
 			}},
 		{Prop: "C10", ID: "C10.5", Engine: "ORDER+DOM", Floor: 2,
 			Desc: "framing: in esBulkDocReader.ReadDoc an action line is skipped before every document line, an over-size document loops on without being returned, and the returned slice is capacity-limited (doc[:n:n])",
